@@ -114,6 +114,45 @@ pub uninterp spec fn replied<R>(req: R, h: R, d: Seq<u8>) -> bool;
 /// "this request was written to the SubDevice's mailbox and answered"
 pub uninterp spec fn exchanged<R>(req: R) -> bool;
 
+
+/// number of object bytes carried by an upload segment (ETG1000.6 5.6.2.6.2): mailbox length - 3, and for the minimum
+/// size of 7 data bytes the last `segment_data_size` of them are padding
+pub open spec fn seglen(h: SdoSegmented) -> int {
+    let c: int = if h.header.length >= 3 { h.header.length - 3 } else { 0 };
+    if c == 7 { 7 - h.sdo_header.segment_data_size as int } else { c }
+}
+/// the object bytes delivered by a sequence of segments: their data parts, in order
+pub open spec fn seg_concat(hs: Seq<SdoSegmented>, ds: Seq<Seq<u8>>) -> Seq<u8>
+    decreases hs.len()
+{
+    if hs.len() == 0 || ds.len() != hs.len() { Seq::<u8>::empty() }
+    else { seg_concat(hs.drop_last(), ds.drop_last()) + ds.last().subrange(0, seglen(hs.last())) }
+}
+/// a segmented transfer: the j-th segment request carries toggle = (j odd) (first segment: 0, then alternating), a counter
+/// in 1..=7, was answered by (hs[j], ds[j]); only the final answer (when `done`) says "last segment"
+pub open spec fn seg_chain(reqs: Seq<SdoSegmented>, hs: Seq<SdoSegmented>, ds: Seq<Seq<u8>>, done: bool) -> bool {
+    &&& reqs.len() == hs.len()
+    &&& ds.len() == hs.len()
+    &&& forall|j: int| 0 <= j < hs.len() ==> #[trigger] replied(reqs[j], hs[j], ds[j])
+            && reqs[j].sdo_header.toggle == (j % 2 == 1)
+            && reqs[j].sdo_header.command == CoeCommand::UploadSegment && 1 <= reqs[j].header.counter <= 7
+            && 0 <= seglen(hs[j]) <= ds[j].len()
+            && hs[j].sdo_header.is_last_segment == (done && j == hs.len() - 1)
+}
+pub open spec fn seg_result<T: EtherCrabWireRead>(v: T) -> bool {
+    exists|reqs: Seq<SdoSegmented>, hs: Seq<SdoSegmented>, ds: Seq<Seq<u8>>|
+        #[trigger] seg_chain(reqs, hs, ds, true) && hs.len() >= 1 && T::unpack_spec(seg_concat(hs, ds)) == Ok::<T, WireError>(v)
+}
+pub proof fn lemma_seg_push(hs: Seq<SdoSegmented>, ds: Seq<Seq<u8>>, h: SdoSegmented, d: Seq<u8>)
+    requires hs.len() == ds.len()
+    ensures seg_concat(hs.push(h), ds.push(d)) == seg_concat(hs, ds) + d.subrange(0, seglen(h))
+{
+    assert(hs.push(h).drop_last() =~= hs);
+    assert(ds.push(d).drop_last() =~= ds);
+    assert(hs.push(h).last() == h);
+    assert(ds.push(d).last() == d);
+}
+
 /// the CoE view of a SubDevice: the device side is `mailbox_write_read`, which may answer ANYTHING
 pub struct Coe { pub _p: u8 }
 impl Coe {
@@ -178,14 +217,16 @@ impl Coe {
     }
 @*/
 
-/*@fn file=src/mailbox/coe/mod.rs impl="impl<'maindevice, S> Coe<'maindevice, S>" name=sdo_read subst="self.subdevice.mailbox_counter()=>self.mailbox_counter()@@impl Into<SubIndex>=>SubIndex@@let sub_index = sub_index.into();=>" props=C15,C16 attr="#[verifier::loop_isolation(false)]"
+/*@fn file=src/mailbox/coe/mod.rs impl="impl<'maindevice, S> Coe<'maindevice, S>" name=sdo_read subst="self.subdevice.mailbox_counter()=>self.mailbox_counter()@@impl Into<SubIndex>=>SubIndex@@let sub_index = sub_index.into();=>" props=C15,C16 attr="#[verifier::loop_isolation(false)] #[verifier::allow_complex_invariants]"
     requires T::PACKED_LEN <= 0x7fff_ffff      // a destination type is not larger than isize::MAX bytes
     ensures
         // Ok(v) => an upload request for exactly (index, sub_index) with a counter in 1..=7 was answered, and
         //  - expedited answer: v decodes the first 4-size bytes after the headers
         //  - normal answer (complete size <= bytes present): v decodes the `length - 10` bytes after the 4-byte size field,
         //    and an object larger than the destination is refused (TooLong), never truncated
-        //  - segmented answers are covered by the safety obligations only (ghost accumulation not built)
+        //  - segmented answer (complete size > bytes present): v decodes the concatenation of the segments' data parts, the
+        //    segment requests alternate the toggle bit starting with 0 and carry counters in 1..=7, and the transfer ends at
+        //    the first segment marked last
         r is Ok ==> exists|req: SdoNormal, h: SdoNormal, d: Seq<u8>| #[trigger] replied(req, h, d)
             && 1 <= req.header.counter <= 7 && req.sdo_header.command == CoeCommand::Upload && req.sdo_header.index == index
             && req.sdo_header.sub_index == (match sub_index { SubIndex::Complete => 1u8, SubIndex::Index(i) => i })
@@ -196,11 +237,39 @@ impl Coe {
             && (!h.sdo_header.expedited_transfer && le32(d) <= (if h.header.length >= 10 { h.header.length - 10 } else { 0 }) ==> ({
                     let dl = if h.header.length >= 10 { (h.header.length - 10) as int } else { 0 };
                     d.len() >= 4 + dl && T::unpack_spec(d.subrange(4, 4 + dl)) == Ok::<T, WireError>(r->Ok_0)
-                })),
+                }))
+            && (!h.sdo_header.expedited_transfer && le32(d) > (if h.header.length >= 10 { h.header.length - 10 } else { 0 }) ==> seg_result::<T>(r->Ok_0)),
 @after "let data: &[u8] = &response;"
     let ghost req0 = request;
     let ghost h0 = headers;
     let ghost d0 = data@;
+    let ghost mut greqs: Seq<SdoSegmented> = Seq::empty();
+    let ghost mut ghs: Seq<SdoSegmented> = Seq::empty();
+    let ghost mut gds: Seq<Seq<u8>> = Seq::empty();
+@after "let (headers, data) = self.mailbox_write_read(request).await?;"
+    let ghost gd = data.data();
+    let ghost buf_before = buf@;
+@after "total_len += chunk_len;"
+    proof {
+        lemma_seg_push(ghs, gds, headers, gd);
+        assert(seglen(headers) == chunk_len);
+        assert(buf@.subrange(0, total_len as int) =~= buf_before.subrange(0, total_len - chunk_len) + gd.subrange(0, chunk_len as int));
+        let ghost oreqs = greqs; let ghost ohs = ghs; let ghost ods = gds;
+        greqs = greqs.push(request);
+        ghs = ghs.push(headers);
+        gds = gds.push(gd);
+        assert forall|j: int| 0 <= j < ghs.len() implies #[trigger] replied(greqs[j], ghs[j], gds[j])
+            && greqs[j].sdo_header.toggle == (j % 2 == 1)
+            && greqs[j].sdo_header.command == CoeCommand::UploadSegment && 1 <= greqs[j].header.counter <= 7
+            && 0 <= seglen(ghs[j]) <= gds[j].len()
+            && ghs[j].sdo_header.is_last_segment == (headers.sdo_header.is_last_segment && j == ghs.len() - 1) by {
+            if j < ohs.len() {
+                assert(greqs[j] == oreqs[j] && ghs[j] == ohs[j] && gds[j] == ods[j]);
+                assert(replied(oreqs[j], ohs[j], ods[j]));
+            }
+        }
+        assert(seg_chain(greqs, ghs, gds, headers.sdo_header.is_last_segment));
+    }
 @before "return Err(Error::Mailbox(MailboxError::TooLong"
     proof {
         // TooLong is produced only here, and only for an object that really exceeds the destination (an object that fits
@@ -217,14 +286,25 @@ impl Coe {
             assert(le32(d0) <= T::PACKED_LEN);
             if le32(d0) <= dl {
                 assert(response_payload@ =~= d0.subrange(4, 4 + dl));
+            } else {
+                assert(response_payload@ == seg_concat(ghs, gds));
+                assert(seg_chain(greqs, ghs, gds, true));
             }
         }
         assert(replied(req0, h0, d0));
     }
 @loop 0
+    invariant_except_break
+        seg_chain(greqs, ghs, gds, false),
+        toggle == (ghs.len() % 2 == 1),
     invariant
         total_len <= buf@.len(),
         buf@.len() == T::PACKED_LEN,
+        ghs.len() == gds.len(),
+        buf@.subrange(0, total_len as int) == seg_concat(ghs, gds),
+    ensures
+        seg_chain(greqs, ghs, gds, true),
+        ghs.len() >= 1,
     decreases buf@.len() - total_len
 @closure 0 "|_e: WireError| -> (cr: Error)"
     ensures cr == Error::Pdu(PduError::Decode)
